@@ -116,6 +116,8 @@ def handleGen (req : Lean.Json) (id : String) : IO Unit := do
       IO.println s!"{id}\tGEN\tok {" ".intercalate issues}"
       IO.println s!"{id}\tSUMMARY\t{summary out cfg}"
       IO.println s!"{id}\tIMPORTS\t{importsLine out}"
+      let rootN := if target = "" then rootNameOf cfg doc else target
+      IO.println s!"{id}\tCERT\treq={certReq out.decls doc.defs 400 (.named rootN) doc.root} type={certType out.decls doc.defs 400 (.named rootN) doc.root}"
       let root := if target = "" then rootNameOf cfg doc else target
       let mut i := 0
       for dl in docs do
